@@ -48,6 +48,15 @@ def setup_worker():
         return tag
 
     m.log = log
+
+    class CM:
+        def __enter__(self):
+            return self
+
+        def __exit__(self, *a):
+            return False
+
+    m.CM = CM
     sys.modules["c16_simlog"] = m
     _S["log"] = m
 
@@ -63,9 +72,19 @@ def plan(tier):
 L = "hy.I.c16-simlog.log"
 
 
+UNCHECKED = "<value of the enclosing construct: not part of this check>"
+CTX = {None: 1, "with2": 1, "if_false": 0, "if_true": 1, "loop2": 2, "loop_break": 0, "lfor": 2, "fn_uncalled": 0, "kwarg": 1,
+       "while_false": 0, "try_finally": 1, "class": 1, "after_raise": 0, "cond2": 1, "and_false": 0}
+
+
 def gen_form(rng, k, in_fn):
     kind = rng.choice((["eac_def"] if not in_fn else []) + ["ewc", "eac", "domac", "domac_rt", "plain", "domac_val", "domac_staged"])
-    return {"kind": kind, "n": rng.choice([1, 1, 2]), "bind": rng.random() < 0.6,
+    ctx = None
+    if kind != "eac_def" and rng.random() < 0.35:
+        # the staging form sits somewhere inside another construct: compiled exactly once wherever it is (also in code
+        # that never runs, or that the compiler lifts into statements), run as often as control reaches it
+        ctx = rng.choice([c for c in CTX if c is not None and not (in_fn and c == "class")])
+    return {"kind": kind, "n": rng.choice([1, 1, 2]), "bind": rng.random() < 0.6 and ctx is None, "ctx": ctx,
             "spell": rng.choice(["-", "-", "-", "_", "R"]),     # eval-and-compile / eval_and_compile / hy.R.hy/core/result-macros.…
             "val": rng.choice(["0", '""', "False", "[]", "None", "0.0", "#()", '"s"', "[1 2]"]),
             "inner": rng.choice(["ewc", "eac", "domac"])}
@@ -76,7 +95,8 @@ def generate(rng, tier):
     for k in range(rng.randrange(2, 9)):
         if rng.random() < 0.3:
             body = [gen_form(rng, k, True) for _ in range(rng.randrange(1, 4))]
-            forms.append({"kind": "defn", "body": body})
+            forms.append({"kind": "defn", "body": body,
+                          "ret_at": rng.randrange(len(body)) if rng.random() < 0.3 else None})
         else:
             forms.append(gen_form(rng, k, False))
     nfn = sum(1 for f in forms if f["kind"] == "defn")
@@ -123,7 +143,7 @@ class Model:
             if f["kind"] == "defn":
                 self.defn(f)
             else:
-                text, val = self.form(f, self.run_log)
+                text, val = self.wrapped(f, self.run_log)
                 if f.get("bind") or f["kind"] == "eac_def":
                     var = "x%d" % self.t
                     if f["kind"] == "eac_def":
@@ -137,6 +157,32 @@ class Model:
     def tag(self):
         self.t += 1
         return "t%d.v%d" % (self.t, self.ver)
+
+    def wrapped(self, f, run_log):
+        tmp = []
+        text, val = self.form(f, tmp)
+        ctx = f.get("ctx")
+        run_log += tmp * CTX[ctx]
+        CMX = "(hy.I.c16-simlog.CM)"
+        u = self.t
+        text = {
+            None: text,
+            "with2": f"(with [_ {CMX} _ (do {text} {CMX})] None)",
+            "if_false": f"(if False {text} None)",
+            "if_true": f"(if True {text} None)",
+            "loop2": f"(for [_ (range 2)] {text})",
+            "loop_break": f"(for [_ (range 2)] (break) {text})",
+            "lfor": f"(lfor _ (range 2) {text})",
+            "fn_uncalled": f"(fn [] {text})",
+            "kwarg": f"(dict :a {text})",
+            "while_false": f"(while False {text})",
+            "try_finally": f"(try None (finally {text}))",
+            "class": f"(defclass K{u} [] {text})",
+            "after_raise": f"(try (raise (ValueError)) {text} (except [ValueError]))",
+            "cond2": f"(cond False 1 True {text})",
+            "and_false": f"(and False {text})",
+        }[ctx]
+        return text, (val if ctx is None else UNCHECKED)
 
     def form(self, f, run_log):
         k = f["kind"]
@@ -207,9 +253,17 @@ class Model:
         fn_run = []
         body = []
         val = None
-        for b in f["body"]:
-            text, val = self.form(b, fn_run)
+        for j, b in enumerate(f["body"]):
+            tmp = []
+            text, v = self.wrapped(b, tmp)
             body.append(text)
+            if f.get("ret_at") is None or j <= f["ret_at"]:
+                fn_run += tmp
+                val = v
+            if f.get("ret_at") == j:
+                # forms after an unconditional return are still compiled (staged), never run
+                body.append(f"(return {7000 + self.t})")
+                val = 7000 + self.t
         self.lines.append(f"(defn {name} []\n  " + "\n  ".join(body) + ")")
         self.fns.append({"name": name, "run_log": fn_run, "value": val})
 
@@ -299,7 +353,7 @@ def execute(desc):
                     v = "<%s: %s>" % (type(e).__name__, str(e)[:80])
                 got = [[ph, t] for ph, t in log.events]
                 want = [["run", t] for t in fn["run_log"]]
-                if got != want or repr(v) != repr(fn["value"]):
+                if got != want or (fn["value"] != UNCHECKED and repr(v) != repr(fn["value"])):
                     viols.append({"clause": "function_call", "sig": "effects" if got != want else "value",
                                   "detail": {"op": oi, "fn": fn["name"], "got": got, "expected": want, "value": repr(v)[:100],
                                              "expected_value": repr(fn["value"]), "text": loaded_model.text()[:1200]}})
